@@ -327,8 +327,8 @@ DamageViol(r, c) ==
                (IF r.cls \in {"payload", "crc", "hdr", "noise", "embed"} THEN Tag("C08", NonGenuine(r.st, c)) ELSE {})
                \* damage, then a crash inside a later append: the record of that append counts as appended;
                \* a record with the in-flight record's queue, position and length but another content is a
-               \* splice of its first frame with a stale continuation frame (finding D10 when the damage was
-               \* a zeroed header, which is the end-of-log marker)
+               \* splice of its first frame with a stale continuation frame (finding D10 when the reader stopped
+               \* at an all-zero header - the end-of-log marker - that damage put in its way)
           \cup (IF r.cls = "dmgcrash" THEN
                   LET inrec == <<r.inflight[2], r.inflight[3], r.inflight[4]>>
                       c2 == [c EXCEPT !.batches = Append(@, [q |-> r.inflight[1], tp |-> -1, recs |-> <<inrec>>])]
@@ -340,7 +340,7 @@ DamageViol(r, c) ==
                   IN Tag("C08", others \cup
                        (IF never = {} THEN {}
                         ELSE IF spliced THEN {"recovered record is a splice of the first frame of an append cut short by a crash and a stale continuation frame behind the point where " \o
-                                              (IF r.dmgkind = "zerohdr" THEN "a zeroed frame header (the end-of-log marker) ended the log" ELSE "damage (" \o r.dmgkind \o ") ended the log")}
+                                              (IF r.dmgkind = "zeromarker" THEN "damage made the reader meet an all-zero header (the end-of-log marker) in front of valid frames" ELSE "the reader stopped at a header that is not all-zero after damage (" \o r.dmgkind \o ")")}
                         ELSE never))
                 ELSE {})
           \cup (IF single THEN Tag("C09", LostViol(x, c, r.hit)) ELSE {})
